@@ -98,6 +98,9 @@ def iter_values(I, v: Any, st, allow_truncated: bool = False) -> Optional[list]:
             return nt
     if isinstance(v, range):
         return list(v)
+    hook = getattr(I, "probes", {}).get("iter") if I is not None else None
+    if hook is not None and isinstance(v, Opaque):
+        return hook(I, v, st)
     return None
 
 
